@@ -48,6 +48,7 @@ type caseOut struct {
 // totals of the fault-free exchange through Synchronize (bytes per direction)
 type totals struct {
 	Wr, Rd int
+	WrEnds []int // offsets (runtime end -> plugin) at which each frame was complete
 }
 
 func Run(o *hx.Opts, w *lineio.Writer) error {
@@ -281,6 +282,9 @@ func calibrate(scratch string, pods int) (totals, error) {
 		if s.getStage() == "synchronized" {
 			f := s.fc.facts()
 			got = &f
+			s.fc.mu.Lock()
+			t.WrEnds = append([]int(nil), s.fc.wp.ends...)
+			s.fc.mu.Unlock()
 		}
 	}
 	defer func() { calHook = nil }()
@@ -290,7 +294,8 @@ func calibrate(scratch string, pods int) (totals, error) {
 		b, _ := json.Marshal(recs)
 		return t, fmt.Errorf("fault-free handshake did not complete: %s", b)
 	}
-	return totals{Wr: got.Wr, Rd: got.Rd}, nil
+	t.Wr, t.Rd = got.Wr, got.Rd
+	return t, nil
 }
 
 // ---------------------------------------------------------------- generators
@@ -380,7 +385,7 @@ func generate(o *hx.Opts, tot map[int]totals) []caseIn {
 		}
 	}
 	// restart chains: n sessions back to back, each stopped or lost
-	for rep := 0; rep < o.N(6, 40); rep++ {
+	for rep := 0; rep < o.N(6, 100); rep++ {
 		for n := 2; n <= 5; n++ {
 			var ops []Op
 			for i := 0; i < n; i++ {
@@ -395,6 +400,16 @@ func generate(o *hx.Opts, tot map[int]totals) []caseIn {
 			add(fmt.Sprintf("chain-%d-%d", n, rep), "chains", false, ops)
 		}
 	}
+	// a Configure callback still running when its connection is dropped and the next Start
+	// begins: its late result belongs to the OLD attempt
+	if ends := tot[0].WrEnds; len(ends) >= 2 {
+		for rep := 0; rep < o.N(8, 40); rep++ {
+			first := Op{Op: "start", Script: Script{Kind: "cut", Dir: "r2p", K: ends[1], CfgDelayMs: 20 + 10*(rep%3)}}
+			second := Op{Op: "start", Script: Script{Kind: "ok", CfgDelayMs: 120}}
+			add(fmt.Sprintf("stalecfg-%d", rep), "stalecfg", false,
+				[]Op{first, second, op("dispatch"), op("await"), op("dispatch"), op("stop"), op("wait")})
+		}
+	}
 	// the default registration timeout (5 s) with a runtime end that never answers
 	if o.Thorough() || o.Budget <= 1 {
 		add("noanswer-default-timeout", "kinds", false, pattern('A', start("noAnswer")))
@@ -403,7 +418,7 @@ func generate(o *hx.Opts, tot map[int]totals) []caseIn {
 	// S3: random histories
 	r := o.Rand(16)
 	t0 := tot[0]
-	for i := 0; i < o.N(250, 4000); i++ {
+	for i := 0; i < o.N(250, 20000); i++ {
 		add(fmt.Sprintf("rand-%d", i), "random", false, randomHistory(r, t0))
 	}
 
@@ -434,8 +449,10 @@ func randomHistory(r *rand.Rand, t totals) []Op {
 			}
 		case x < 70:
 			ops = append(ops, op("lose"))
-		case x < 80:
+		case x < 76:
 			ops = append(ops, op("await"))
+		case x < 80:
+			ops = append(ops, Op{Op: "pause", Script: Script{K: []int{0, 20, 200, 2000}[r.Intn(4)]}})
 		case x < 92:
 			ops = append(ops, op("dispatch"))
 		default:
